@@ -419,6 +419,10 @@ def decide(prop, ob, tier, seed, workroot, keep=False):
                         # the native run stops at the FIRST failing assertion; an earlier harness assertion that CBMC also refuted fails first
                         confirmed = True; how = 'native run fails the earlier assertion L%s (also refuted by CBMC) before reaching L%d' % (mfail.group(1), line)
                         line = int(mfail.group(1)); key = '%s:L%d' % (ob.name, line)
+                    elif line > 0 and mem_checks and (rcn not in (0, 10, 12) or 'ERROR: AddressSanitizer' in errn or 'runtime error' in errn):
+                        # the native run dies of a memory error before it reaches the harness assertion, and CBMC refuted memory checks as well: that IS the violation
+                        confirmed = True; how = 'native run crashed / sanitizer report before reaching L%d (CBMC also refutes %d memory checks): %s' % (line, len(mem_checks), errn.strip().split('\n')[0] if errn.strip() else 'rc=%d' % rcn)
+                        line = -1; key = '%s:L-1' % ob.name; mem_confirmed = True
                     elif line == 0 and ('THROW' in outn or 'OOB' in outn or 'terminate' in errn): confirmed = True; how = 'native run: ' + ('out-of-range container access' if 'OOB' in outn else 'C++ exception thrown') + ': ' + outn.strip()[-100:]
                     elif line == -1 and (rcn not in (0, 10, 12) or 'ERROR: AddressSanitizer' in errn or 'runtime error' in errn):
                         confirmed = True; how = 'native run crashed / sanitizer report: ' + (errn.strip().split('\n')[0] if errn.strip() else 'rc=%d' % rcn)
